@@ -26,6 +26,14 @@
 namespace bloc
 {
 
+static Integer toInteger(Numeric d)
+{
+  /* it must fit in an integer: NaN fails the test */
+  if (!(d >= Numeric(INT64_MIN) && d < -Numeric(INT64_MIN)))
+    throw RuntimeError(EXC_RT_OUT_OF_RANGE);
+  return Integer(d);
+}
+
 std::string HEXExpression::hex(Integer val, Integer n)
 {
   static const char g[16] = {
@@ -35,6 +43,10 @@ std::string HEXExpression::hex(Integer val, Integer n)
   Integer s = 0;
   unsigned char len = 0;
   char buf[2 * sizeof(Integer)];
+
+  /* wider than the buffer makes no difference, and counting would overflow */
+  if (n > Integer(sizeof(buf)))
+    n = Integer(sizeof(buf));
 
   for (int d = 4 * (sizeof(buf) - 1); d > 0; d -= 4)
   {
@@ -70,7 +82,7 @@ Value& HEXExpression::value(Context & ctx) const
           n = *arg1.integer();
           break;
         case Type::NUMERIC:
-          n = Integer(*arg1.numeric());
+          n = toInteger(*arg1.numeric());
           break;
         default:
           throw RuntimeError(EXC_RT_FUNC_ARG_TYPE_S, KEYWORDS[FUNC_HEX]);
@@ -82,7 +94,7 @@ Value& HEXExpression::value(Context & ctx) const
       v = Value(new Literal(hex(*arg0.integer(), n)));
       break;
     case Type::NUMERIC:
-      v = Value(new Literal(hex(Integer(*arg0.numeric()), n)));
+      v = Value(new Literal(hex(toInteger(*arg0.numeric()), n)));
       break;
     default:
       throw RuntimeError(EXC_RT_FUNC_ARG_TYPE_S, KEYWORDS[FUNC_HEX]);
